@@ -27,6 +27,27 @@ void harness(void) {
 }
 #endif
 
+#ifdef H_calcid_plain
+/* plain-mode twin of H_calcid (loop unwound, nothing havocked): the id GENERATION advances exactly when the cursor wraps around the cache.
+ * (seed C13-4: a generation that never advances lets the late reply to a timed-out request complete the next request in the same slot;
+ * the contract-mode job cannot see it - after the loop havoc the generation is arbitrary and the loop invariant does not carry it) */
+void harness(void) {
+	KSI_uint64_t id = nondet_ull(), off = nondet_ull(); size_t rc0, off0;
+	int res;
+	if (!mk_client()) return;
+	__CPROVER_assume(ainv_inv(&g_c));
+	rc0 = g_c.requestCount; off0 = g_c.requestCountOffset;
+	res = asyncClient_calculateRequestId(&g_c, &id, &off);
+	__CPROVER_assert(res == KSI_OK || res == KSI_ASYNC_REQUEST_CACHE_FULL, "calcid: OK or cache full");
+	if (res == KSI_OK) {
+		__CPROVER_assert(id >= 1 && id < ainv_N(&g_c) && g_c.reqCache[id] == NULL && id == g_c.requestCount && off == g_c.requestCountOffset, "calcid: an empty slot inside the cache, the cursor, the current generation");
+		__CPROVER_assert(IMPLIES(id > rc0, off == off0), "calcid: the generation is unchanged while the cursor has not wrapped");
+		__CPROVER_assert(IMPLIES(id <= rc0, off != off0), "calcid: the id generation advances when the cursor wraps around the cache (a slot is never reused under the same id)");
+		if (id <= rc0) REACH("cursor wrapped"); else REACH("no wrap");
+	} else REACH("cache full");
+}
+#endif
+
 #ifdef H_handle_response
 void harness(void) {
 	struct KSI_Integer_st rid, status;
